@@ -28,25 +28,25 @@ type Finding struct {
 
 // Ctx accumulates what a worker covered.
 type Ctx struct {
-	Prop        string            `json:"property"`
-	Tier        string            `json:"tier"`
-	Seed        int64             `json:"seed"`
-	States      int64             `json:"states"`
-	Transitions int64             `json:"transitions"`
-	Executions  int64             `json:"executions"`
-	Evaluations int64             `json:"evaluations"`
-	Nontrivial  int64             `json:"distinct_nontrivial"`
-	Samples     []any             `json:"samples"`
-	Findings    []Finding         `json:"findings"`
-	FindCount   map[string]int64  `json:"find_count"`
-	Notes       map[string]any    `json:"notes"`
-	Counters    map[string]int64  `json:"counters"`
-	Sets        map[string]map[string]bool `json:"sets"`
-	Inexhaustive []string         `json:"inexhaustive"`
-	Internal    []string          `json:"internal"`
-	Unit        string            `json:"-"`
-	Only        string            `json:"-"` // replay: restrict to this case id
-	mu          sync.Mutex
+	Prop         string                     `json:"property"`
+	Tier         string                     `json:"tier"`
+	Seed         int64                      `json:"seed"`
+	States       int64                      `json:"states"`
+	Transitions  int64                      `json:"transitions"`
+	Executions   int64                      `json:"executions"`
+	Evaluations  int64                      `json:"evaluations"`
+	Nontrivial   int64                      `json:"distinct_nontrivial"`
+	Samples      []any                      `json:"samples"`
+	Findings     []Finding                  `json:"findings"`
+	FindCount    map[string]int64           `json:"find_count"`
+	Notes        map[string]any             `json:"notes"`
+	Counters     map[string]int64           `json:"counters"`
+	Sets         map[string]map[string]bool `json:"sets"`
+	Inexhaustive []string                   `json:"inexhaustive"`
+	Internal     []string                   `json:"internal"`
+	Unit         string                     `json:"-"`
+	Only         string                     `json:"-"` // replay: restrict to this case id
+	mu           sync.Mutex
 }
 
 // NewCtx makes an empty context.
